@@ -59,6 +59,23 @@ pub fn dec_g2u(e: &G2Uncompressed) -> Result<G2Affine, GroupDecodingError> {
     see(e.as_ref(), 4);
     oracle_g2()
 }
+// the UNCHECKED decoders (no subgroup test) must never be what a deserializer calls: kinds 11..14
+pub fn dec_g1c_unchecked(e: &G1Compressed) -> Result<G1Affine, GroupDecodingError> {
+    see(e.as_ref(), 11);
+    oracle_g1()
+}
+pub fn dec_g1u_unchecked(e: &G1Uncompressed) -> Result<G1Affine, GroupDecodingError> {
+    see(e.as_ref(), 12);
+    oracle_g1()
+}
+pub fn dec_g2c_unchecked(e: &G2Compressed) -> Result<G2Affine, GroupDecodingError> {
+    see(e.as_ref(), 13);
+    oracle_g2()
+}
+pub fn dec_g2u_unchecked(e: &G2Uncompressed) -> Result<G2Affine, GroupDecodingError> {
+    see(e.as_ref(), 14);
+    oracle_g2()
+}
 pub fn enc_g1c(_p: G1Affine) -> G1Compressed {
     let mut e = G1Compressed::empty();
     let mut i = 0;
@@ -105,6 +122,10 @@ macro_rules! point_stubs {
         #[kani::stub(<pairing_plus::bls12_381::G1Uncompressed as pairing_plus::EncodedPoint>::into_affine, dec_g1u)]
         #[kani::stub(<pairing_plus::bls12_381::G2Compressed as pairing_plus::EncodedPoint>::into_affine, dec_g2c)]
         #[kani::stub(<pairing_plus::bls12_381::G2Uncompressed as pairing_plus::EncodedPoint>::into_affine, dec_g2u)]
+        #[kani::stub(<pairing_plus::bls12_381::G1Compressed as pairing_plus::EncodedPoint>::into_affine_unchecked, dec_g1c_unchecked)]
+        #[kani::stub(<pairing_plus::bls12_381::G1Uncompressed as pairing_plus::EncodedPoint>::into_affine_unchecked, dec_g1u_unchecked)]
+        #[kani::stub(<pairing_plus::bls12_381::G2Compressed as pairing_plus::EncodedPoint>::into_affine_unchecked, dec_g2c_unchecked)]
+        #[kani::stub(<pairing_plus::bls12_381::G2Uncompressed as pairing_plus::EncodedPoint>::into_affine_unchecked, dec_g2u_unchecked)]
         #[kani::stub(<pairing_plus::bls12_381::G1Compressed as pairing_plus::EncodedPoint>::from_affine, enc_g1c)]
         #[kani::stub(<pairing_plus::bls12_381::G1Uncompressed as pairing_plus::EncodedPoint>::from_affine, enc_g1u)]
         #[kani::stub(<pairing_plus::bls12_381::G2Compressed as pairing_plus::EncodedPoint>::from_affine, enc_g2c)]
@@ -203,6 +224,7 @@ fn g1_projective_de_and_ser() {
     if (data[0] & 0x80 != 0) != compressed {
         assert!(r.is_err() && unsafe { DEC_CALLS } == 0);
     } else {
+        assert!(unsafe { DEC_CALLS } == 1 && unsafe { DEC_KIND } == if compressed { 1 } else { 2 });
         assert!(r.is_ok() == unsafe { DEC_OK } && reader.len() == 97 - need);
         if let Ok(p) = &r {
             assert!(*p == G1::one());
@@ -276,7 +298,8 @@ macro_rules! g1_projective_de {
                 assert!(r.is_err());
                 assert!(unsafe { DEC_CALLS } == 0);
             } else {
-                assert!(unsafe { DEC_CALLS } == 1 && r.is_ok() == unsafe { DEC_OK } && left == $len - need);
+                assert!(unsafe { DEC_CALLS } == 1 && unsafe { DEC_KIND } == if compressed { 1 } else { 2 });
+                assert!(r.is_ok() == unsafe { DEC_OK } && left == $len - need);
                 let mut i = 0;
                 while i < need {
                     assert!(unsafe { DEC_SEEN[i] } == data[i]);
